@@ -13,9 +13,18 @@ C08 — Operand expressions are evaluated as exact integer arithmetic.
 * `selector` / `topic` are the first 4 / all 32 bytes of Keccak-256 (`parseExpr`
   calls `Keccak.keccak256`, checked against published vectors below);
 * the assembled immediate is exactly that value: `Props/C02.lean`
-  (`emit_op_exact`).
+  (`emit_op_exact`);
+* `C08_text`: the TEXT of an operand — any flat sequence `term (blanks op blanks
+  term)*` whose terms are literals in the four radixes (any digit count, upper or
+  lower case hex), negative decimals, labels and parenthesised sequences nested
+  to any depth, with arbitrary blanks around operators and inside parentheses —
+  written as `%push(<text>)`, goes through the FULL pest interpreter over the
+  regenerated grammar and the walk of `parse_asm` to exactly the expression the
+  climber builds from its terms (`TSeq.expr`), i.e. by `C08_precedence` the
+  stratified-grammar reading; no bound on length or nesting.
 -/
 import EtkVerif.Asm.ExprLemmas
+import EtkVerif.Asm.ExprTextPest
 namespace EtkVerif.C08
 open Asm
 
@@ -50,5 +59,18 @@ example : stratified (.num 1) [(.plus, .num 2), (.times, .num 3), (.minus, .num 
 example : climb (.num 10) [(.minus, .num 4), (.minus, .num 3)] = .minus (.minus (.num 10) (.num 4)) (.num 3) := rfl
 example : parseRadix [49, 48, 49] 2 = .ok 5 := rfl
 example : parseRadix [102, 70] 16 = .ok 255 := rfl
+
+open Asm.ExprText in
+/-- text of an operand → the climber's expression over its terms (lexing and walk included) -/
+theorem C08_text (l r : List Nat) (s : TSeq) (hl : IsBlanks l) (hr : IsBlanks r) (hs : s.WF) :
+    parseAsm (pushText l s r) = .ok [.op (.push s.expr)] :=
+  parse_pushText l r s hl hr hs
+
+open Asm.ExprText in
+/-- … which is the stratified-grammar reading of the term sequence -/
+theorem C08_text_stratified (t : TTerm) (rest : TRest) :
+    (TSeq.mk t rest).expr = stratified t.expr rest.list := by
+  simp only [TSeq.expr]
+  exact climb_eq_stratified _ _
 
 end EtkVerif.C08
